@@ -62,15 +62,23 @@ structure Rule where
   callRW : Bool → Bool → Bool
   intrRW : Bool → Bool → Bool → Bool
 
-/-- the repaired code (fixes/C11-call-intrinsic-args-written.patch) -/
+/-- the code with fixes/C11-intrinsic-subroutine-args-written.patch applied: an intrinsic that
+is a statement (child of a Schedule) marks its by-reference arguments READWRITE;
+`Call.reference_accesses` is unchanged (`if self.is_pure: READ`) -/
 def fixedRule : Rule where
-  callRW pure isStmt := !(pure && !isStmt)
-  intrRW pure inquiry isStmt := isStmt || !(pure || inquiry)
+  callRW pure _ := !pure
+  intrRW _ _ isStmt := isStmt
 
 /-- the pinned code: `if self.is_pure: READ`; intrinsic arguments are always only visited -/
 def pinnedRule : Rule where
   callRW pure _ := !pure
   intrRW _ _ _ := false
+
+/-- what the property needs: only a pure *function* leaves its arguments alone (a pure
+subroutine may have INTENT(OUT) dummies) -/
+def idealRule : Rule where
+  callRW pure isStmt := !(pure && !isStmt)
+  intrRW _ _ isStmt := isStmt
 
 structure Ctx where
   rule : Rule
